@@ -27,6 +27,48 @@ type reportCtor struct {
 	fields map[*types.Var]*ir.Term
 	pos    map[*types.Var]token.Pos
 	ret    *ir.Term
+	// when the constructor is a one-line wrapper  return worker(m, newOptions(os...))  of an unexported worker of
+	// the package: the worker and that definition (a term over the constructor's parameters)
+	worker *types.Func
+	def    *ir.Term
+}
+
+// ctorWorker: fn's only path returns the call of one unexported function of the package (nothing else
+// happens): that function and the returned call as a term over fn's parameters.
+func (e *Env) ctorWorker(fn *types.Func) (*types.Func, *ir.Term) {
+	sf := e.P.SSAFunc(fn)
+	if sf == nil {
+		return nil, nil
+	}
+	no := e.newOptionsFunc()
+	leaves, err := ir.Leaves(sf, ir.LeafOptions{Forward: true, Effects: true, Inline: func(*ssa.Function) bool { return false }})
+	if err != nil || len(leaves) != 1 || len(leaves[0].Ret) != 1 || len(leaves[0].Guards) != 0 {
+		return nil, nil
+	}
+	r := leaves[0].Ret[0]
+	w, _ := r.Obj.(*types.Func)
+	if r.Op != ir.OCall || w == nil || w.Exported() || w.Pkg() != fn.Pkg() || w == no {
+		return nil, nil
+	}
+	// the arguments with the package's small helpers expanded (languageOf(os...) = newOptions(os...).lang)
+	leaves, err = ir.Leaves(sf, ir.LeafOptions{Forward: true, Effects: true, Inline: e.inlineHelpers(no, w)})
+	if err != nil || len(leaves) != 1 || len(leaves[0].Ret) != 1 || len(leaves[0].Guards) != 0 {
+		return nil, nil
+	}
+	r = leaves[0].Ret[0]
+	if w2, _ := r.Obj.(*types.Func); r.Op != ir.OCall || w2 != w {
+		return nil, nil
+	}
+	for _, ef := range leaves[0].Effects {
+		if ef.Kind != "call" {
+			return nil, nil
+		}
+		cf, _ := ef.Val.Obj.(*types.Func)
+		if ef.Val.Op != ir.OCall || (cf != w && cf != no) {
+			return nil, nil
+		}
+	}
+	return w, r
 }
 
 func (e *Env) reportCtors(rule string) []*reportCtor {
@@ -54,7 +96,26 @@ func (e *Env) reportCtors(rule string) []*reportCtor {
 			e.C.Fail(rule, fname(fn), e.P.Pos(fn.Pos()), "result is not a pointer to a report struct")
 			continue
 		}
-		leaves, err := ir.Leaves(e.P.SSAFunc(fn), ir.LeafOptions{Forward: true, Effects: true, Inline: e.inlineHelpers(e.newOptionsFunc())})
+		rc.worker, rc.def = e.ctorWorker(fn)
+		// the worker of the lower constructor stays a call: the embedded report is compared with the lower
+		// constructor's definition (embedded-report)
+		except := []*types.Func{e.newOptionsFunc()}
+		if len(out) > 0 && out[len(out)-1].worker != nil {
+			except = append(except, out[len(out)-1].worker)
+		}
+		leaves, err := ir.Leaves(e.P.SSAFunc(fn), ir.LeafOptions{Forward: true, Effects: true, Inline: e.inlineHelpers(except...)})
+		if no := e.newOptionsFunc(); err == nil && no != nil && len(leaves) > 1 {
+			// newOptions returns a fresh options value, never nil (rule options): a path that needs its result to be
+			// nil (a defensive  if opts == nil  in a helper) is not a path of the constructor
+			optNil := ir.Bin("==", ir.Call(no, ir.Param(1)), nilOf(no.Type().(*types.Signature).Results().At(0).Type()))
+			var kept []*ir.Leaf
+			for _, lf := range leaves {
+				if !hasGuard(lf, optNil) {
+					kept = append(kept, lf)
+				}
+			}
+			leaves = kept
+		}
 		if err != nil || len(leaves) != 1 || len(leaves[0].Ret) != 1 {
 			e.C.Undecided(rule, fname(fn), e.P.Pos(fn.Pos()), fmt.Sprintf("constructor is not a single straight-line path (%v)", err))
 			continue
@@ -266,6 +327,10 @@ func (e *Env) reportWiring(rc, lower *reportCtor, nf *nameFuncs) {
 				c.Fail("embedded-report", cons, e.P.Pos(rc.fn.Pos()), "accessor "+lower.level.Spec.Name+"Metrics not declared on the level")
 			case got.Key() == want.Key():
 				c.Ok("embedded-report", cons, e.P.Pos(rc.pos[emb]), "lower constructor on the accessor of the embedded object, same options")
+			case lower.def != nil && got.Key() == ir.Subst(lower.def, []*ir.Term{ir.Call(acc, p0), ir.Param(1)}).Key():
+				// NewBase(m, os...) is by definition newBase(m, newOptions(os...)): the worker applied to the accessor
+				// of the embedded object and the options resolved from the same slice is that constructor's result
+				c.Ok("embedded-report", cons, e.P.Pos(rc.pos[emb]), "the lower constructor's worker on the accessor of the embedded object, with the options resolved from the same slice (the lower constructor's own definition)")
 			default:
 				a, b := ir.Diff(got, want)
 				c.Fail("embedded-report", cons, e.P.Pos(rc.pos[emb]), fmt.Sprintf("the embedded report is not %s(param.%s(), os...): found %s, expected %s (language not forwarded, or another object reported)", lower.fn.Name(), acc.Name(), clip(a), clip(b)))
